@@ -137,6 +137,7 @@ def build(ctx):
                 nprobe[0] += 1
             N = g.max_size(0, D) + 1
             dynamic = bool(msg.groups or msg.data)
+            if msg.name == "nest" and (xml, std) != ("vs_msg_le.xml", "17"): continue   # the deep message: solver half under one configuration (each cursor arm needs up to 15 min); its static_asserts and probes ran above for every configuration
             for lv in g.levels:
                 for kind, arms, mk in (("get", c02.leaf_arms(g, lv, sch) + c02.dyn_arms(g, lv), c02.harness), ("cursor", c04.arms_for(g, lv, True), c04.harness)):
                   if not arms: continue
